@@ -227,3 +227,39 @@ def check_critical_section(ctx, rule):
         ctx.holds(rule, f, "one-critical-section", where,
                   "single exclusive acquisition `%s` on self.metadata (bb%d); guard locals %s are not dropped before the push (bb%s)" % (
                       at["callee"].split("::")[-1], ablk, sorted(guard_locals), [p for p, _ in pushes]))
+
+
+def check_no_version_underflow(ctx, rule):
+    """the closed marker is version 0 and the reset marker is observed 0: a *checked* subtraction between the current version and the
+    observed version in the poll leaf (a "how far behind" figure for a log line) panics in debug builds unless the path has
+    established which of the two is larger - in particular before the closed test, where version is 0 and observed is not."""
+    f = get_leaf(ctx, rule)
+    if f is None:
+        return
+    b = f.built
+    obs_param = None
+    for i in range(1, b.arg_count + 1):
+        if b.locals[i]["ty"].replace(" ", "") in ("&mutu64",):
+            obs_param = i
+    if obs_param is None:
+        return
+    is_obs = lambda e: contains(e, lambda x: x[0] == "param" and x[1] == obs_param)
+    n = 0
+    for loc, s_ in b.iter_stmts():
+        if s_["k"] != "assign" or s_["rv"]["k"] != "bin" or not str(s_["rv"]["op"]).startswith("Sub"):
+            continue
+        l_, r_ = b.expr_of_op(s_["rv"]["l"]), b.expr_of_op(s_["rv"]["r"])
+        if _is_version(l_) and is_obs(r_):
+            big, small = _is_version, is_obs
+        elif is_obs(l_) and _is_version(r_):
+            big, small = is_obs, _is_version
+        else:
+            continue
+        n += 1
+        facts = conds.dominating_facts(b, loc[0])
+        ok = conds.cmp_holds(facts, "Lt", small, big) or conds.cmp_holds(facts, "Le", small, big)
+        ctx.verdict(ok, rule, f, "version-difference-cannot-underflow", b.line_at(loc), "the subtraction is dominated by the comparison that makes it safe",
+                    "the poll leaf subtracts `%s - %s` on a path that has not established which is larger: once the observable is closed the version is the marker 0 while the subscriber's observed version is not, so (with overflow checks, i.e. in every debug build) each poll after the end panics - and poisons the metadata lock - where it must answer None" % (
+                        fmt(l_, 3), fmt(r_, 3)))
+    if n == 0:
+        ctx.holds(rule, f, "version-difference-cannot-underflow", f.loc(), "the poll leaf computes no difference between the current and the observed version")
